@@ -233,20 +233,26 @@ def conclude(prop, tier, seed, mon, results, findings, infra, t0, out, write_evi
         unmet.append("no cases ran")
     elif inconc > max(2, 0.02 * n):
         unmet.append(f"inconclusive={inconc}/{n}")
-    # replay files
+    # replay files: one per distinct mechanism (clause, direction, features)
     replay_dir = os.path.join(ROOT, "replays", prop)
     lines = []
-    for r, unknown in new_viol[:20]:
+    mech = {}
+    for r, unknown in new_viol:
+        for v in unknown:
+            mk = (v["clause"], v.get("direction"), json.dumps(v.get("features", {}), sort_keys=True))
+            m = mech.setdefault(mk, {"count": 0, "first": (r, v)})
+            m["count"] += 1
+    for mk, m in sorted(mech.items(), key=lambda kv: -kv[1]["count"])[:40]:
+        r, v0 = m["first"]
         os.makedirs(replay_dir, exist_ok=True)
-        h = hashlib.sha1(json.dumps(r.get("case"), sort_keys=True, default=str).encode()).hexdigest()[:12]
-        path = os.path.join(replay_dir, f"{h}.json")
+        hh = hashlib.sha1(json.dumps([r.get("case"), mk], sort_keys=True, default=str).encode()).hexdigest()[:12]
+        path = os.path.join(replay_dir, f"{hh}.json")
         with open(path, "w") as f:
             json.dump({"property": prop, "tier": tier, "seed": seed, "case": r.get("case"),
-                       "violations": unknown, "observed": r.get("observed")}, f, indent=1, default=str)
-        v0 = unknown[0]
+                       "violations": [v0], "observed": r.get("observed")}, f, indent=1, default=str)
         lines.append(f"VIOLATION property={prop} replay={os.path.relpath(path, ROOT)} "
                      f"clause={v0['clause']} direction={v0.get('direction')} "
-                     f"features={json.dumps(v0.get('features', {}), sort_keys=True)}")
+                     f"features={mk[2]} cases={m['count']}")
     wall = time.time() - t0
     ev = {
         "property_id": prop, "tier": tier if tier in ("quick", "thorough") else "quick", "seed": int(seed),
@@ -266,6 +272,8 @@ def conclude(prop, tier, seed, mon, results, findings, infra, t0, out, write_evi
             "infra_failures": infra[:5],
             "known_findings_hit": known_hit,
             "unlisted_violations": len(new_viol),
+            "unlisted_mechanisms": [{"clause": k[0], "direction": k[1], "features": json.loads(k[2]), "cases": m["count"]}
+                                    for k, m in sorted(mech.items(), key=lambda kv: -kv[1]["count"])][:40],
             "floors": floors, "floors_unmet": unmet,
             "repo": repo_state(),
             "exhaustive": bool(getattr(mon, "EXHAUSTIVE", {}).get(tier, False)),
